@@ -1,4 +1,4 @@
-import PfVerif.Model.C06
+import PfVerif.Model.C06Depth
 import Driver.Proto
 /-! Driver ops for C06 (depression filling). `model.*` = executable model of the code,
 `spec.*` = declarative definitions / the decidable certificate `fillCertOk` (proved sound in
@@ -6,13 +6,29 @@ import Driver.Proto
 namespace Pf.Ops
 open Pf.Proto Pf.C06
 
-/-- declarative seed set: edge cells (or the listed cells), then optionally the lowest of them -/
+/-- declarative seed set: edge cells (not above `elv_max`) or the listed cells, then optionally the
+lowest of them -/
 def specSeeds (G : Grid) (conn : Nat) (elev : Array Int) (nod : Array Bool) (pits : Option (List Nat))
-    (minMode : Bool) : Array Bool :=
+    (minMode : Bool) (elvMax : Option Int := none) : Array Bool :=
   let s0 := match pits with
-    | none => specEdge G conn nod
+    | none =>
+      match elvMax with
+      | none => specEdge G conn nod
+      | some m => ((List.range G.n).map fun c => decide (IsEdge G conn nod c) && decide (elev[c]! ≤ m)).toArray
     | some p => ((List.range G.n).map fun c => decide (c ∈ p)).toArray
   if minMode then specMin G elev s0 else s0
+
+def seedErrStr : SeedErr → String
+  | .valueError => "ValueError"
+  | .indexError => "IndexError"
+
+/-- declarative properties of a depth-limited fill (`max_depth = md >= 0`) that hold for every run:
+nodata untouched and coded 247, valid cells never coded 247, nothing lowered, nothing raised by
+`md` or more -/
+def depthOk (G : Grid) (elev : Array Int) (nod : Array Bool) (md : Int) (f : Array Int) (d8 : Array Nat) : Bool :=
+  (List.range G.n).all fun c =>
+    if nod[c]! then f[c]! == elev[c]! && d8[c]! == 247
+    else d8[c]! != 247 && decide (elev[c]! ≤ f[c]!) && (f[c]! == elev[c]! || decide (f[c]! - elev[c]! < md))
 
 /-- walk `ds` from `c`: every step is an allowed move between valid cells along which `f` does not
 rise, and the walk ends (within `fuel` steps) at a fixed point that is a seed -/
@@ -49,14 +65,39 @@ def opsC06 : List (String × Op) := [
     let nod ← a.bools "nod"
     let minMode := (← a.nat "min") != 0
     let pits := optNatList a "pits"
+    let elvMax := a.optInt "elv_max"
     if nod.size ≠ G.n ∨ elev.size ≠ G.n then throw "shape"
-    let seedM ← match seedsOf G conn elev nod pits minMode with
-      | none => throw "IndexError"
-      | some s => pure s
-    let seedS := specSeeds G conn elev nod pits minMode
-    match fillModel G conn elev nod pits minMode with
-    | none => throw "IndexError"
-    | some (f, d8, fin) =>
+    match a.optInt "max_depth" with
+    | some md =>
+      -- depth-limited fill (max_depth >= 0, scaled like the elevations; the harness sends ceil)
+      if md < 0 then throw "domain"
+      match fillModelDepth G conn elev nod pits minMode elvMax md with
+      | .error e => throw (seedErrStr e)
+      | .ok (f, d8, fin, ev, evc) =>
+        if !fin then throw "fuel"
+        let evmax := evc.foldl max 0
+        let mut out : Out := [("model.f", f), ("model.d8", ofNats d8), ("model.ev", #[(ev : Int)]),
+          ("model.evmax", #[(evmax : Int)]), ("spec.depth_model", ofBool (depthOk G elev nod md f d8))]
+        -- when no too-deep event happened the run must be the unlimited fill
+        if ev == 0 then
+          match fillModelE G conn elev nod pits minMode elvMax with
+          | .ok (f0, d80, _) => out := out ++ [("model.same_as_unlimited", ofBool (f0 == f && d80 == d8))]
+          | .error _ => pure ()
+        match a.optInts "impl.f", a.optInts "impl.d8" with
+        | some fi, some di =>
+          let di := di.map Int.toNat
+          if fi.size ≠ G.n ∨ di.size ≠ G.n then throw "shape"
+          out := out ++ [("spec.depth_impl", ofBool (depthOk G elev nod md fi di))]
+        | _, _ => pure ()
+        pure out
+    | none =>
+    let seedM ← match seedsOfE G conn elev nod pits minMode elvMax with
+      | .error e => throw (seedErrStr e)
+      | .ok s => pure s
+    let seedS := specSeeds G conn elev nod pits minMode elvMax
+    match fillModelE G conn elev nod pits minMode elvMax with
+    | .error e => throw (seedErrStr e)
+    | .ok (f, d8, fin) =>
       if !fin then throw "fuel"
       let certModel := fillCertOk G conn elev nod seedS f d8 (rankOf G d8)
       let mut out : Out := [("model.f", f), ("model.d8", ofNats d8), ("model.seeds", ofBools seedM),
@@ -72,7 +113,7 @@ def opsC06 : List (String × Op) := [
           let d2 := d2.map Int.toNat
           if f2.size ≠ G.n ∨ d2.size ≠ G.n then throw "shape"
           -- seeds of the second call are recomputed from the filled surface (matters for 'min')
-          let seedS2 := specSeeds G conn fi nod pits minMode
+          let seedS2 := specSeeds G conn fi nod pits minMode elvMax
           out := out ++ [("spec.cert_impl2", ofBool (fillCertOk G conn fi nod seedS2 f2 d2 (rankOf G d2))),
                          ("spec.seeds2", ofBools seedS2)]
         | _, _ => pure ()
@@ -87,6 +128,16 @@ def opsC06 : List (String × Op) := [
     let fI ← a.ints "impl.f"
     let d8I ← a.nats "impl.d8"
     if nod.size ≠ G.n ∨ elev.size ≠ G.n ∨ dsI.size ≠ G.n ∨ fI.size ≠ G.n ∨ d8I.size ≠ G.n then throw "shape"
+    match a.optInt "max_depth" with
+    | some md =>
+      -- depth-limited: only the decoding of the directions is compared
+      if md < 0 then throw "domain"
+      match fillModelDepth G 8 elev nod none minMode none md with
+      | .error e => throw (seedErrStr e)
+      | .ok (_, d8, fin, _, _) =>
+        if !fin then throw "fuel"
+        pure [("model.ds", ofNats (dsArray G d8)), ("spec.ds", ofNats (dsArray G d8I))]
+    | none =>
     match fillModel G 8 elev nod none minMode with
     | none => throw "IndexError"
     | some (_, d8, fin) =>
